@@ -24,6 +24,7 @@
 #include <new>
 #include <pthread.h>
 #include <signal.h>
+#include <poll.h>
 #include <sys/mman.h>
 #include <sys/select.h>
 #include <sys/socket.h>
@@ -133,6 +134,7 @@ static int p_strat = ST_RANDOM, p_pctDepth = 2, p_pctSteps = 2000;
 static char p_roots[8][512]; static int p_nroots;
 static int p_chunk;               // split tracked writes into pieces of this size
 static long p_crashOp = -1; static int p_crashPrefix; // prefix in permille of the op's byte count
+static int p_crashSig = SIGKILL;   // how the run is interrupted at the crash op: SIGKILL, or a catchable signal (SIGTERM/SIGINT/SIGHUP)
 static int p_selTimeout, p_waitLag, p_loadavg;
 static int p_readdirShuffle, p_dtUnknown;
 static long p_clock;              // epoch seconds; 0 = real clock
@@ -273,11 +275,12 @@ static void sched_point(const char* kind, int blockState, void* mtx, int joinTas
     }
 }
 
-static void* trampoline(void* p) {
+// The hand-over at the end of a task runs as a pthread key destructor, i.e. after the C++ thread_local destructors of the
+// exiting thread: their operator delete calls then still happen while the task holds the baton, in a seeded order, instead
+// of concurrently with the next task (which made the heap layout - and with it the allocator probe - timing dependent).
+static pthread_key_t g_exitKey; static int g_exitKeyOk;
+static void task_finished(void* p) {
     Task* t = (Task*)p;
-    tl_self = t;
-    park(t);
-    void* r = t->fn(t->arg);
     g_sl.lock();
     t->state = T_DONE; g_live--;
     for (int i = 0; i < g_ntasks; i++)
@@ -289,6 +292,14 @@ static void* trampoline(void* p) {
     g_sl.unlock();
     if (nx < 0) sched_stall("SIM-DEADLOCK no runnable task at thread exit");
     unpark(&g_tasks[nx]);
+}
+static void* trampoline(void* p) {
+    Task* t = (Task*)p;
+    tl_self = t;
+    park(t);
+    void* r = t->fn(t->arg);
+    if (g_exitKeyOk && pthread_setspecific(g_exitKey, t) == 0) return r;
+    task_finished(t);
     return r;
 }
 
@@ -296,6 +307,7 @@ VIS int pthread_create(pthread_t* th, const pthread_attr_t* attr, void* (*fn)(vo
     if (g_role != R_MAIN) return R_pthread_create()(th, attr, fn, arg);
     g_sl.lock();
     if (g_ntasks == 0) { // register the creating (main) thread as task 0
+        if (!g_exitKeyOk && pthread_key_create(&g_exitKey, task_finished) == 0) g_exitKeyOk = 1;
         Task* m = &g_tasks[0]; m->id = 0; m->state = T_RUNNABLE; m->word = 0; m->th = pthread_self(); m->prio = (long)g_rs.below(1000000) + 10;
         tl_self = m; g_ntasks = 1; g_live = 1;
         for (int k = 0; k < 8; k++) g_pctChange[k] = 1 + (long)g_rs.below((uint32_t)p_pctSteps);
@@ -426,6 +438,25 @@ static bool xrecv(int fd, void* p, size_t n) {
 static long op_event(const char* who, const char* kind, const char* rel, long len) {
     long n = ++g_ops;
     tracef("O %ld %ld %s %s %s %ld\n", g_seq++, n, who, kind, rel, len);
+    if (n == p_crashOp && p_crashSig != SIGKILL) {
+        // "kill <pid>" with a catchable signal, delivered to the main process just before this op. With the default
+        // disposition that is the same as a SIGKILL before the op; if the program has installed a handler it goes on
+        // running (a graceful shutdown) and whatever it leaves in the build dir is what the next run finds.
+        struct sigaction cur; memset(&cur, 0, sizeof cur);
+        sigaction(p_crashSig, nullptr, &cur);
+        if ((cur.sa_flags & SA_SIGINFO) || (cur.sa_handler != SIG_DFL && cur.sa_handler != SIG_IGN)) {
+            tracef("X %ld crash op=%ld interrupt sig=%d handled\n", g_seq++, n, p_crashSig);
+            t_flush();
+            // directed at the calling thread: the handler has run when the call returns (a process-directed signal could be
+            // taken by any parked thread at any later time, which no seed would decide)
+            syscall(SYS_tgkill, (pid_t)syscall(SYS_getpid), (pid_t)syscall(SYS_gettid), p_crashSig);
+            return -1;
+        }
+        if (cur.sa_handler == SIG_IGN) { tracef("X %ld crash op=%ld interrupt sig=%d ignored\n", g_seq++, n, p_crashSig); return -1; }
+        tracef("X %ld crash op=%ld prefix=0 sig=%d\n", g_seq++, n, p_crashSig);
+        t_flush();
+        return 0;
+    }
     if (n == p_crashOp) {
         long pre = (len > 0) ? (len * p_crashPrefix) / 1000 : 0;
         if (pre > len) pre = len;
@@ -931,6 +962,8 @@ VIS struct dirent* readdir(DIR* d) {
             if (p_dtUnknown) ds->ents[ds->n].d_type = DT_UNKNOWN;
             ds->n++;
         }
+        // the order the file system happens to return is not a function of the seed: start from the sorted order
+        qsort(ds->ents, (size_t)ds->n, sizeof(struct dirent), [](const void* a, const void* b) { return strcmp(((const struct dirent*)a)->d_name, ((const struct dirent*)b)->d_name); });
         if (p_readdirShuffle)
             for (int i = ds->n - 1; i > 0; i--) { int j = (int)g_re.below((uint32_t)i + 1); struct dirent t = ds->ents[i]; ds->ents[i] = ds->ents[j]; ds->ents[j] = t; }
         tracef("V %ld readdir n=%d shuffled=%d dtunknown=%d\n", g_seq++, ds->n, p_readdirShuffle, p_dtUnknown);
@@ -970,6 +1003,14 @@ VIS int gettimeofday(struct timeval* tv, void* tz) {
 // ---------------------------------------------------------------------------
 #define TRAP(name) VIS long vsim_trap_##name() __asm__(#name); \
     long vsim_trap_##name() { sim_die(99, "SIM-UNSUPPORTED " #name); }
+// poll() on a modelled result pipe would wait for bytes that never arrive on the real descriptor
+extern "C" int __poll(struct pollfd*, unsigned long, int);
+VIS int poll(struct pollfd* fds, nfds_t n, int timeout) {
+    if (g_role == R_MAIN && g_nw) {
+        for (nfds_t i = 0; i < n; i++) if (worker_by_rfd(fds[i].fd)) sim_die(99, "SIM-UNSUPPORTED poll on a worker result pipe");
+    }
+    return __poll(fds, n, timeout);
+}
 TRAP(vfork)
 TRAP(pselect)
 TRAP(ppoll)
@@ -1073,6 +1114,7 @@ __attribute__((constructor(200))) static void vsim_init() {
         else if (!strcmp(key, "chunk")) p_chunk = atoi(val);
         else if (!strcmp(key, "crash_op")) p_crashOp = atol(val);
         else if (!strcmp(key, "crash_prefix")) p_crashPrefix = atoi(val);
+        else if (!strcmp(key, "crash_sig")) p_crashSig = atoi(val) > 0 ? atoi(val) : SIGKILL;
         else if (!strcmp(key, "sel_timeout")) p_selTimeout = atoi(val);
         else if (!strcmp(key, "wait_lag")) p_waitLag = atoi(val);
         else if (!strcmp(key, "loadavg")) p_loadavg = atoi(val);
